@@ -88,7 +88,7 @@ theorem lex_bmp_supp (r s : Nat) (hr : IsScalar r) (hr' : r < 0x10000) (hs : 0x1
   · simp [a]
   · have b : 55296 + (s - 65536) / 1024 < r := by omega
     have b' : r > 55296 + (s - 65536) / 1024 := b
-    simp [a, b, b']
+    simp [a, b]
 
 theorem lex_supp_bmp (r s : Nat) (hs : IsScalar s) (hs' : s < 0x10000) (hr : 0x10000 ≤ r) (hr' : r ≤ 0x10FFFF) :
     lexCmp (unitsOfRune r) (unitsOfRune s) = cmpNat (0xD800 + (r - 0x10000) / 1024) s := by
@@ -401,5 +401,39 @@ theorem go_encode (rs ss : List Nat) (hr : ∀ r ∈ rs, IsScalar r) (hs : ∀ s
         · simp only [e, if_true]
           exact ih ss' (fun x hx => hr x (by simp [hx])) (fun x hx => hs x (by simp [hx])) f (by omega)
         · simp only [e, if_false]
+
+theorem cmpNat_range (a b : Nat) : cmpNat a b = -1 ∨ cmpNat a b = 0 ∨ cmpNat a b = 1 := by
+  unfold cmpNat
+  split
+  · simp
+  · split <;> simp
+
+theorem go_range (f : Nat) (x y : Bytes) : go f x y = -1 ∨ go f x y = 0 ∨ go f x y = 1 := by
+  induction f generalizing x y with
+  | zero => simp only [go]; exact cmpNat_range _ _
+  | succ f ih =>
+    cases x with
+    | nil => rw [go_nil_left]; exact cmpNat_range _ _
+    | cons x0 xs =>
+      cases y with
+      | nil => rw [go_nil_right]; exact cmpNat_range _ _
+      | cons y0 ys =>
+        rw [go]
+        simp only []
+        split
+        · split
+          · exact cmpNat_range _ _
+          · exact ih _ _
+        · split
+          · exact cmpNat_range _ _
+          · split
+            · exact cmpNat_range _ _
+            · exact ih _ _
+
+/-- `CompareUTF16(y, x) = -CompareUTF16(x, y)` on arbitrary bytes. -/
+theorem go_swap_cmp (x y : Bytes) : compareUTF16 y x = - compareUTF16 x y := by
+  unfold compareUTF16
+  rw [go_fuel y.length x.length y x (Or.inl (Nat.le_refl _)) (Or.inr (Nat.le_refl _))]
+  exact go_swap _ _ _
 
 end JsonV.Lemmas.CmpL
